@@ -542,6 +542,37 @@ pub fn run(prop: &str, tier: &str, replay: Option<&str>) -> i32 {
             out
         });
         rep.add(sec);
+        // runs: a damaged file rarely loses exactly one character - every run of 2..=12 characters deleted at every position
+        // (a boundary line without its closing dashes, without its label, a body line cut short), alone and inside the bundles
+        if thorough || ["ed25519_1.pkcs8", "p256_1.pkcs8", "rsa2048_1.pkcs1"].iter().any(|n| k.label.contains(n)) {
+            let sec = Section::new(&format!("errors-pem-runs/key{:02} {}", ki, k.label), "PEM text of the private key (LF and CRLF) with every run of 2..=12 characters deleted at every position (for long texts: within the first 140 and last 110 positions), alone and inside the three bundle contexts, through every PEM loader and parser: Display and Debug of every error, monitored");
+            run::sweep_cases(&sec, &positions, &|p| format!("run starting at {}", p), &|p| {
+                let mut out = Outcome::default();
+                for (_, tb) in conventions.iter().take(2) {
+                    for len in 2..=12usize {
+                        if *p + len > tb.len() {
+                            break;
+                        }
+                        let mut m = tb.clone();
+                        m.drain(*p..*p + len);
+                        if let Ok(t) = std::str::from_utf8(&m) {
+                            out.transitions += loaders_errors(&[], Some(t), &k.needles, &mut out.findings);
+                            for bundle in [format!("{}{}", t, bundle_cert), format!("{}{}", bundle_cert, t), format!("{}{}", t, text)] {
+                                let before = out.findings.len();
+                                out.transitions += loaders_errors(&[], Some(&bundle), &k.needles, &mut out.findings);
+                                for f in out.findings[before..].iter_mut() {
+                                    f.locus = format!("{} (bundle)", f.locus);
+                                }
+                            }
+                        }
+                    }
+                }
+                out.findings.dedup_by(|a, b| a.sig() == b.sig());
+                out.digest = 1 + (*p as u64 % 7);
+                out
+            });
+            rep.add(sec);
+        }
         // two insertions (whitespace / framing characters) at every pair of positions: the smallest key only
         if ki == 0 {
             let ab: &[u8] = b"\n \r\t-=";
